@@ -285,6 +285,9 @@ func main() {
 			emit(fmt.Sprintf("K sign %d %s %d", e.id, hexs(p), m), res+" "+list())
 		case c < 6:
 			e, np := pick(), pass()
+			if r.Chance(1, 4) {
+				np = "" // the empty passphrase is a passphrase like any other
+			}
 			op := passFor(e.id)
 			err := kb.Update(e.addr, op, np)
 			res := "ok"
@@ -295,6 +298,18 @@ func main() {
 			}
 			stats["keybase/update/"+res]++
 			emit(fmt.Sprintf("K update %d %s %s", e.id, hexs(op), hexs(np)), res+" "+list())
+			if err == nil { // ... and the key must now open under exactly the new passphrase, not under the old one
+				for _, p := range []string{np, op} {
+					m := r.Intn(len(msgs))
+					sig, pub, err := kb.Sign(e.addr, p, msgs[m])
+					res := "err"
+					if err == nil {
+						res = fmt.Sprintf("sig verifies=%v", pub.VerifyBytes(msgs[m], sig))
+					}
+					stats["keybase/sign-after-update/"+strings.SplitN(res, " ", 2)[0]]++
+					emit(fmt.Sprintf("K sign %d %s %d", e.id, hexs(p), m), res+" "+list())
+				}
+			}
 		case c < 7:
 			e := pick()
 			p := passFor(e.id)
